@@ -82,13 +82,31 @@ def correspondence(ctx, model_available=True):
     other += [("PRINT_REG", [("REGISTER", 3)]), ("PRINT", [("STRING", "hi")]), ("PRINTLN", [("STRING", "")])]
 
     impl_dis = [real_disassemble(w) for w in words + outside]
+    # decoded operations kept alive side by side: what an operation looks like must not depend on what was decoded
+    # after it (seed C05g: operand tokens cached per class and shared between the operations decoded from them)
+    keep = (words[:100] + words[len(words) // 2:len(words) // 2 + 300]) if quick else words[::16]
+    objs = []
+    for w in keep:
+        o = run_real(lambda w=w: op.disassemble(w))[0]
+        if o is not None:
+            objs.append((w, o, oc.describe_real_op(o), str(o)))
+    stale = None
+    for w, o, desc, text in objs:
+        now = oc.describe_real_op(o)
+        if now != desc or str(o) != text:
+            stale = {"what": "word %s was decoded to %s; after other words were decoded the same object reads %s"
+                             % (hex(w), text, str(o)), "case": {"disassemble": w}}
+            break
     impl_asm = [real_assemble(oc.real_op(n, t)) for n, t in insts + other]
 
     res = {"cases": len(impl_dis) + len(impl_asm), "disagreements": [], "spec_failures": [],
            "model_available": model_available, "exhaustive": not quick,
            "distribution": {"words_decoded": len(words), "out_of_range_ints": len(outside),
                             "instruction_instances_encoded": len(insts), "other_assemble_forms": len(other),
+                            "decoded_objects_kept_alive": len(objs),
                             "words_that_are_instructions": sum(1 for r in impl_dis if "ok" in r)}}
+    if stale:
+        res["spec_failures"].append(stale)
     if model_available:
         terms = ["enc_res_op (disassemble %s false)" % coqrun.z(w) for w in words + outside]
         terms += ["enc_asm (assemble %s)" % oc.op_term(n, t) for n, t in insts + other]
